@@ -18,6 +18,8 @@ Definition ret_set (q : pc) : bool := match q with PUnlIn | PUnlMu | PDefer | PW
 
 Definition invb (s : state) : bool :=
   negb (complete s && hs_err s)
+  && negb (owner_eqb (mutex s) Parked)
+  && (negb (owner_eqb (inl s) Parked) || complete s)
   && eqb (is_mine (mutex s)) (in_mu (p s))
   && eqb (is_mine (inl s)) (in_il (p s))
   && match ret s with
@@ -39,7 +41,7 @@ Definition invb (s : state) : bool :=
   && (negb (match p s with P4 | P5 | P6 => true | _ => false end) || negb (complete s) && negb (hs_err s)).
 
 (* ---- the state space is finite: statements about one step are decided by an exhaustive sweep ---- *)
-Definition owners := [Free; Mine; Others].
+Definition owners := [Free; Mine; Others; Parked].
 Definition bools := [true; false].
 Definition intrs := [INone; IWait; IFired; INil].
 Definition pcs := [P0; P1; P2; P3; P4; P5; P6; PUnlIn; PUnlMu; PDefer; PWaitI; PRet].
@@ -105,6 +107,13 @@ Definition lockset_p (s : state) : bool :=
   implb (invb s) ((negb (touches_hs (p s)) || is_mine (mutex s)) && (negb (touches_in (p s)) || is_mine (inl s))
                   && (negb (is_mine (mutex s)) || negb (enabledb s EBodyOk) && negb (enabledb s EBodyErr) && negb (enabledb s EAcquire))).
 Lemma lockset_all : forallb lockset_p all_states = true. Proof. vm_compute. reflexivity. Qed.
+
+(* the caller waits for the input lock only while no result exists, hence never behind a parked reader *)
+Definition inwait_p (s : state) : bool :=
+  implb (invb s) (match p s with
+                  | P4 => negb (complete s) && negb (hs_err s) && negb (owner_eqb (inl s) Parked)
+                  | _ => true end).
+Lemma inwait_all : forallb inwait_p all_states = true. Proof. vm_compute. reflexivity. Qed.
 
 (* guarantee: what the caller and its interrupter do to the shared state is something the environment may do *)
 Definition own_label (l : label) : bool := match l with LC | LBodyOk | LBodyErr | LBuildErr | LIFire | LIDone => true | _ => false end.
